@@ -58,7 +58,7 @@ def gen_base(rng, tier, index):
         call["slow"] = {"before": before, "stop": rng.choice([0, 0.05, 0.3])}
     else:
         # flow control: bounded result buffer + late head / alternating chunks
-        call["form"] = rng.choice(["list", "gen", "slow"])
+        call["form"] = rng.choice(["list", "gen", "slow", "deque", "intseq"])
         if call["form"] == "slow":
             call["slow"] = {"before": {}, "stop": rng.choice([0, 0.05, 0.3])}
         rq = rng.choice([1, 1, 2, 3])
